@@ -13,6 +13,8 @@ pub struct LeafPlan {
 pub enum Shape {
     Flat { fam: Family, cont: Cont, n: usize },
     Nested { kind: u32 },
+    /// randomly generated tree over type-erased children (dynnest.rs)
+    Dyn { tree: crate::dynnest::DT },
     Group { stream: bool, keyed: bool, cap: Option<usize>, ops: u32, from_iter: usize, burst: usize },
     Co { spec: crate::costream::CoSpec },
 }
@@ -41,6 +43,7 @@ impl Plan {
                 format!("{}/{}/{}", fam.name(), cont.name(), b)
             }
             Shape::Nested { kind } => format!("nested/{}", crate::nested::name(*kind)),
+            Shape::Dyn { tree } => format!("dyn/{}/depth{}", crate::dynnest::root_family(tree).name(), crate::dynnest::depth(tree)),
             Shape::Group { stream, keyed, .. } => {
                 format!("{}/{}", if *stream { "StreamGroup" } else { "FutureGroup" }, if *keyed { "keyed" } else { "plain" })
             }
@@ -51,6 +54,7 @@ impl Plan {
         match &self.shape {
             Shape::Flat { fam, cont, n } => format!("{} over {} of {} children", fam.name(), cont.name(), n),
             Shape::Nested { kind } => format!("nested shape {}", crate::nested::name(*kind)),
+            Shape::Dyn { tree } => format!("generated nested shape {}", crate::dynnest::describe(tree)),
             Shape::Group { stream, keyed, cap, ops, from_iter, burst } => format!(
                 "{}{} cap={:?} from_iter={} burst={} with {} scheduled operations",
                 if *stream { "StreamGroup" } else { "FutureGroup" },
@@ -112,15 +116,15 @@ pub fn profile(prop: &str) -> Profile {
         "C03" => Profile { nested: true, groups: true, co: true, allow_cancel: true, ..base },
         "C20" => Profile { families: CONCURRENT, nested: true, groups: true, ..base },
         "C16" => Profile { families: SELECTIVE, nested: true, groups: true, ..base },
-        "C04" => Profile { families: &[Family::Join], ..base },
-        "C05" => Profile { families: &[Family::TryJoin], ..base },
-        "C06" => Profile { families: &[Family::Race], ..base },
-        "C07" => Profile { families: &[Family::RaceOk], ..base },
-        "C08" => Profile { families: &[Family::Merge], ..base },
-        "C09" => Profile { families: &[Family::Zip], allow_cancel: true, ..base },
-        "C10" => Profile { families: &[Family::Chain], ..base },
+        "C04" => Profile { families: &[Family::Join], nested: true, ..base },
+        "C05" => Profile { families: &[Family::TryJoin], nested: true, ..base },
+        "C06" => Profile { families: &[Family::Race], nested: true, ..base },
+        "C07" => Profile { families: &[Family::RaceOk], nested: true, ..base },
+        "C08" => Profile { families: &[Family::Merge], nested: true, ..base },
+        "C09" => Profile { families: &[Family::Zip], nested: true, allow_cancel: true, ..base },
+        "C10" => Profile { families: &[Family::Chain], nested: true, ..base },
         "C17" => Profile { families: &[Family::Merge], fairness: true, ..base },
-        "C19" => Profile { families: &[Family::WaitUntilF, Family::WaitUntilS], ..base },
+        "C19" => Profile { families: &[Family::WaitUntilF, Family::WaitUntilS], nested: true, ..base },
         "C11" => Profile { families: &[], groups: true, allow_cancel: true, ..base },
         "C12" => Profile { families: &[], groups: true, allow_cancel: true, ..base },
         "C13" | "C14" | "C15" => Profile { families: &[], co: true, allow_cancel: true, ..base },
@@ -337,6 +341,7 @@ pub fn plan(w: &mut World, prop: &str) -> Plan {
     }
     if p.nested {
         kinds.push(1);
+        kinds.push(4);
     }
     if p.groups && !cfg!(feature = "cfg-nostd") {
         kinds.push(2);
@@ -352,6 +357,7 @@ pub fn plan(w: &mut World, prop: &str) -> Plan {
         0 => flat(w, &p),
         1 => crate::nested::plan(w, &p),
         2 => crate::group::plan(w, &p, prop),
+        4 => crate::dynnest::plan(w, &p),
         _ => crate::costream::plan(w, &p, prop),
     }
 }
